@@ -23,7 +23,9 @@ def gen_graph(rng, version):
     segs = {}
     for s in names:
         L = rng.randint(6, 14)
-        segs[s] = (G.rseq(rng, L) if with_seq and rng.random() < 0.95 else "*", L)
+        # (sequences over ACGT, or over the IUPAC codes, upper or lower case)
+        alpha = rng.choice(["ACGT", "ACGT", "ACGTRYKMSWBDHVN", "acgtrykmswbdhvn", "ACGTSWN"])
+        segs[s] = (G.rseq(rng, L, alpha) if with_seq and rng.random() < 0.95 else "*", L)
     links = []
     used = set()
     feats = set()
